@@ -55,7 +55,10 @@ def judge_io(shape, dtype, name_off, fmt, tmpdir):
 
 DERIVED = [("slice", 0, 0.5), ("slice", 0, 0.3), ("slice", 1, 0.25), ("slice", 1, 5.0), ("slice", 2, 4.0), ("slice", 2, 3.0),
            ("slice2", 0, 0.3, 0, 0.1), ("slice2", 0, 0.3, 1, 3.0), ("slice2", 1, 5.0, 0, 0.5), ("slice2", 2, 3.0, 0, 1.0), ("slice2", 1, 0.25, 1, 2.0),
-           ("reread",), ("reread_slice", 0, 0.3), ("reread_slice", 1, 5.0)]
+           ("reread",), ("reread_slice", 0, 0.3), ("reread_slice", 1, 5.0),
+           # a grid built FROM another grid under new axis names: the child carries the new names, the parent (alive, written
+           # afterwards) still its own
+           ("relabel_child",), ("relabel_parent",), ("copy_parent",)]
 
 
 def judge_derived_io(how, fmt, tmpdir):
@@ -75,6 +78,14 @@ def judge_derived_io(how, fmt, tmpdir):
             g.write(f0, format=fmt)
             g = NssGrid.read(f0, format=fmt)
             os.remove(f0)
+        if how[0] in ("relabel_child", "relabel_parent"):
+            child = NssGrid(g, [a.copy() for a in g.axes], ["u", "v w", "x"])
+            g = child if how[0] == "relabel_child" else g
+        if how[0] == "copy_parent":
+            import copy
+
+            c2 = copy.deepcopy(g)
+            c2.meta["AXIS0"] = "zzz"  # editing the copy's header dictionary is the copy's business
         if how[0] in ("slice", "slice2", "reread_slice"):
             g = grid_slice_interp(g, how[2], how[1])
         if how[0] == "slice2":
